@@ -250,6 +250,8 @@ def gen(rnd, *, core=False, res_choices=(60, 60, 30, 15), subslot=True, alap=Non
             r["limits"] = {rnd.choice(["dailymax", "weeklymax"]): rnd.choice([1, 2, 3, 4, 6, 1.5, 2.5, 7.5, 3.75])}   # fractions: seeded change C05-d rounded them
             if rnd.random() < 0.25:
                 r["limits"] = {"dailymax": rnd.choice([1, 2, 3, 4]), "weeklymax": rnd.choice([4, 6, 8, 12])}      # both kinds on one resource
+            elif rnd.random() < 0.08:
+                r["limits"] = {rnd.choice(["dailymax", "weeklymax"]): rnd.choice([0.25, 0.5]) * res / 60.0}       # less than one slot: nothing may be booked
         resources.append(r)
     m["resources"] = resources
     m["groups"] = []
